@@ -64,6 +64,24 @@ func nameMatch(name, pat string) bool {
 			}
 		}
 	}
+	// "(*T).M" also names the free function M of T's package when T has no method M any more (method -> function refactoring)
+	if strings.HasPrefix(pat, "(") && !strings.HasPrefix(name, "(") {
+		if i := strings.Index(pat, ")."); i > 0 {
+			t := strings.TrimPrefix(pat[1:i], "*")
+			if j := strings.LastIndex(t, "."); j >= 0 {
+				t = t[j+1:]
+			}
+			m := pat[i+2:]
+			if k := strings.LastIndex(name, "."); k > 0 && name[k+1:] == m {
+				pp := name[:k]
+				if pk, ok := typeMethods[t]; ok {
+					if ms, ok := pk[pp]; ok && !ms[m] {
+						return true
+					}
+				}
+			}
+		}
+	}
 	if strings.HasSuffix(name, pat) {
 		pre := name[:len(name)-len(pat)]
 		if pre == "" {
@@ -122,7 +140,24 @@ func callsLocal(fn *ssa.Function, pats ...string) []ssa.CallInstruction {
 
 var staticSites = map[*ssa.Function][]*ssa.Call{}
 
+// typeMethods: receiver type name -> package path -> set of method names (module source functions); used to recognise an
+// unexported method that was turned into a free function of the same package (and keeps its name)
+var typeMethods = map[string]map[string]map[string]bool{}
+
 func registerCallSites(fns []*ssa.Function) {
+	for _, fn := range fns {
+		if recv := fn.Signature.Recv(); recv != nil && fn.Pkg != nil {
+			tn := typeNameOf(recv.Type())
+			if typeMethods[tn] == nil {
+				typeMethods[tn] = map[string]map[string]bool{}
+			}
+			pp := short(fn.Pkg.Pkg.Path())
+			if typeMethods[tn][pp] == nil {
+				typeMethods[tn][pp] = map[string]bool{}
+			}
+			typeMethods[tn][pp][fn.Name()] = true
+		}
+	}
 	for _, fn := range fns {
 		allInstrs(fn, func(in ssa.Instruction) {
 			if call, ok := in.(*ssa.Call); ok {
